@@ -1,13 +1,12 @@
-(* CPython list semantics needed by the client's context managers:
+(* CPython list semantics needed by the client's context managers (client.py, since fix 651ddd8):
 
-       for mt in msg_list:
+       msg_list = list(msg_list)
+       for mt in list(msg_list):        # iterate over a COPY
            if P(mt):
-               msg_list.remove(mt)
+               msg_list.remove(mt)      # deletes the FIRST element equal to mt
 
-   The list iterator keeps an INDEX into the list; `list.remove(x)` deletes the FIRST element equal to x
-   and shifts the tail left, so the element that followed a removed one is never visited.
-   Executable, proof-free.  Fuel: every iteration increases the index and the list never grows, so
-   `S (length l)` iterations suffice (Proofs/PyListProofs.v: iter_remove_total). *)
+   Executable, proof-free.  (Before 651ddd8 the loop iterated msg_list itself, whose index-based iterator
+   skipped the element after each removed one; that model and its lemmas were retired with the fix.) *)
 From Coq Require Import ZArith List Bool.
 Import ListNotations.
 Open Scope Z_scope.
@@ -18,35 +17,7 @@ Fixpoint remove_first (x : Z) (l : list Z) : list Z :=
   | y :: r => if x =? y then r else y :: remove_first x r
   end.
 
-Fixpoint iter_remove_fuel (fuel : nat) (p : Z -> bool) (l : list Z) (i : nat) : option (list Z) :=
-  match fuel with
-  | O => None
-  | S k =>
-    match nth_error l i with
-    | None => Some l                                   (* index past the end: StopIteration *)
-    | Some x => if p x then iter_remove_fuel k p (remove_first x l) (S i)
-                else iter_remove_fuel k p l (S i)
-    end
-  end.
-
-Definition iter_remove (p : Z -> bool) (l : list Z) : option (list Z) :=
-  iter_remove_fuel (S (length l)) p l 0.
-
-(* what the loop computes on a duplicate-free tail: after a removed element the next one is skipped *)
-Fixpoint skip_filter (p : Z -> bool) (l : list Z) : list Z :=
-  match l with
-  | [] => []
-  | x :: r => if p x then match r with [] => [] | y :: r' => y :: skip_filter p r' end
-              else x :: skip_filter p r
-  end.
-
-(* a syntactic condition under which the loop is the intended filter: no duplicates, no two neighbours
-   that are both removed *)
-Fixpoint no_adjacent (p : Z -> bool) (l : list Z) : bool :=
-  match l with
-  | x :: ((y :: _) as r) => negb (p x && p y) && no_adjacent p r
-  | _ => true
-  end.
-Fixpoint nodupb (l : list Z) : bool :=
-  match l with [] => true | x :: r => negb (existsb (Z.eqb x) r) && nodupb r end.
-
+(* the loop: `copy` is what is iterated, the accumulator is msg_list *)
+Definition copy_remove_from (p : Z -> bool) (copy acc : list Z) : list Z :=
+  fold_left (fun acc x => if p x then remove_first x acc else acc) copy acc.
+Definition copy_remove (p : Z -> bool) (l : list Z) : list Z := copy_remove_from p l l.
